@@ -2124,6 +2124,15 @@ func marshalTuple(info TypeInfo, value interface{}) ([]byte, error) {
 	return nil, marshalErrorf("cannot marshal %T into %s", value, tuple)
 }
 
+// checkBytes reports whether p, which holds at least 4 bytes, starts with a [bytes]
+// value that fits into p.
+func checkBytes(p []byte) error {
+	if size := int(readInt(p)); size > len(p)-4 {
+		return unmarshalErrorf("unexpected eof: element of %d bytes with %d bytes left", size, len(p)-4)
+	}
+	return nil
+}
+
 func readBytes(p []byte) ([]byte, []byte) {
 	// TODO: really should use a framer
 	size := readInt(p)
@@ -2149,6 +2158,9 @@ func unmarshalTuple(info TypeInfo, data []byte, value interface{}) error {
 			// each element inside data is a [bytes]
 			var p []byte
 			if len(data) >= 4 {
+				if err := checkBytes(data); err != nil {
+					return err
+				}
 				p, data = readBytes(data)
 			}
 			err := Unmarshal(elem, p, v[i])
@@ -2178,6 +2190,9 @@ func unmarshalTuple(info TypeInfo, data []byte, value interface{}) error {
 		for i, elem := range tuple.Elems {
 			var p []byte
 			if len(data) >= 4 {
+				if err := checkBytes(data); err != nil {
+					return err
+				}
 				p, data = readBytes(data)
 			}
 
@@ -2208,6 +2223,9 @@ func unmarshalTuple(info TypeInfo, data []byte, value interface{}) error {
 		for i, elem := range tuple.Elems {
 			var p []byte
 			if len(data) >= 4 {
+				if err := checkBytes(data); err != nil {
+					return err
+				}
 				p, data = readBytes(data)
 			}
 
@@ -2370,6 +2388,9 @@ func unmarshalUDT(info TypeInfo, data []byte, value interface{}) error {
 				return unmarshalErrorf("can not unmarshal %s: field [%d]%s: unexpected eof", info, id, e.Name)
 			}
 
+			if err := checkBytes(data); err != nil {
+				return err
+			}
 			var p []byte
 			p, data = readBytes(data)
 			if err := v.UnmarshalUDT(e.Name, e.Type, p); err != nil {
@@ -2413,6 +2434,9 @@ func unmarshalUDT(info TypeInfo, data []byte, value interface{}) error {
 
 			val := reflect.New(valType)
 
+			if err := checkBytes(data); err != nil {
+				return err
+			}
 			var p []byte
 			p, data = readBytes(data)
 
@@ -2463,6 +2487,9 @@ func unmarshalUDT(info TypeInfo, data []byte, value interface{}) error {
 			return unmarshalErrorf("can not unmarshal %s: field [%d]%s: unexpected eof", info, id, e.Name)
 		}
 
+		if err := checkBytes(data); err != nil {
+			return err
+		}
 		var p []byte
 		p, data = readBytes(data)
 
